@@ -1450,7 +1450,7 @@ start_field (GMarkupParseContext *context,
   /* Fields are assumed to be read-only.
    * (see also girwriter.py and generate.c)
    */
-  field->readable = readable == NULL || strcmp (readable, "0") == 0;
+  field->readable = readable == NULL || strcmp (readable, "0") != 0;
   field->writable = writable != NULL && strcmp (writable, "1") == 0;
 
   if (bits)
